@@ -27,8 +27,8 @@ ASSUMPTIONS = ['real-valued input, 0 <= n_overlap < NFFT, Fs > 0, real window wi
 TRUSTED_EXTRA = ['matplotlib.mlab.csd = Welch segment-averaged windowed periodogram, detrend none, one-sided doubling, /Fs, /sum(window^2) (model: welchBin)',
                  'scipy.fftpack.fft / np.fft.fft = DFT (model: naive O(N^2) sum, segFft)',
                  'np.sqrt on complex128 = principal square root; np.angle = atan2(im, re); np.hanning',
-                 'multi_taper_csd, periodogram_csd, dpss_windows, adaptive_weights are NOT modelled here: for those methods the model starts from '
-                 'the spectra / tapered spectra / weights the implementation exposes and covers the coherence layer on top of them',
+                 'multi_taper_csd is modelled by the spectral model (Nitime.Model.C04 multiTaperCsdList; DPSS tapers and adaptive weights enter as data, see C04/C07); '
+                 'periodogram_csd cases and the MT analyzer start from the spectra / tapered spectra / weights the implementation exposes',
                  'reading of the CScalar-polymorphic definitions at K = Complex (theorems) vs K = binary64 pairs (run): parametricity, unproved']
 
 RTOL = 1e-9
@@ -182,19 +182,14 @@ def make_scenarios(rng, tier, seed):
         if rng.random() < 0.08:
             n = rng.randrange(NFFT // 2 + 1, NFFT + 2)       # at most one segment, zero padded
         if n > 256:
-            # long records are expensive for the model (naive DFT over linked lists): a bounded number of them per
-            # run, few channels, and about 30 segments
+            # long records: the model's segment FFT is the naive O(NFFT^2) sum (array-backed reads), so keep the
+            # number of segments of a long record near 120 and the number of long records per run bounded
             n_long += 1
-            if n_long > 6:
+            if n_long > 24:
                 n = rng.choice([128, 200, 256])
             else:
-                if n >= 2048:
-                    n, nch = (2048, 2) if n_long == 1 else (1024, nch)
-                nch = min(nch, 3)
-                if nov is None:
-                    nov = NFFT // 2
-                min_step = min(NFFT, (n - NFFT) // 30 + 1)
-                if NFFT - nov < min_step:
+                min_step = min(NFFT, (n - NFFT) // 120 + 1)
+                if nov is not None and NFFT - nov < min_step:
                     nov = NFFT - min_step
         wk = rng.choice(['hann', 'hann', 'hamming', 'boxcar', 'rand'])
         Fs = rng.choice([1.0, 2.0, 2 * math.pi, 10.0, 0.5, 250.0, rng.uniform(0.1, 100)])
@@ -391,6 +386,21 @@ def cases_of(sc, R, si):
         out.append(Case(line, impl, clause, cmp=cmp, meta={'sc': si, 'obs': obs or what}))
 
     pre = sc['kind'] if sc['kind'] == 'welch' else sc['method']
+    if sc['kind'] == 'csd' and sc['method'].startswith('multi_taper'):
+        # joint run with the spectral model (C04/C06): estimator from the data (tapers, weights as data) + coherence layer
+        import c04
+        adaptive = sc['method'].endswith('adaptive')
+        mm = {'op': 'mtcsd', 'Fs': sc['Fs'], 'sides': 'default', 'adaptive': adaptive, 'NFFT': None, 'low_bias': True, 'NW': None, 'BW': None}
+        j = run(lambda: (c04.mt_tapers(mm, n), c04.adaptive_w(mm, X) if adaptive else None))
+        if not isinstance(j, str):
+            (dpss, eig), wa = j
+            wv = wa.reshape(-1) if adaptive else np.sqrt(eig)
+            for what, conv in (('coherency', ok_c), ('coherence', ok_r)):
+                r = R[what]
+                if not isinstance(r, str):
+                    line = 'C08 mtcsd %s %s %d 1 %d %d %s %s %s %s' % (what, f2x(sc['Fs']), n, nch, len(eig), flist(dpss.reshape(-1)),
+                                                                      'a' if adaptive else 'f', flist(wv), clist(X.reshape(-1)))
+                    out.append(Case(line, conv(r[1]), '%s/joint/%s' % (pre, what), cmp=cmp_vec, meta={'sc': si, 'obs': what}))
     full = lambda pos: pos
     pw = phase_weights(fxy, full, (nch, nch, nf))
     if sc['kind'] == 'welch':
@@ -574,6 +584,7 @@ def judge(sc, R, gain_rng=None):
         if not np.allclose(c, np.transpose(c, (1, 0, 2)), rtol=0, atol=1e-9):
             bad('mt-analyzer/coherence/not-symmetric', 'MT coherence matrix is not symmetric', 'mta')
         d = np.array([c[i, i] for i in range(nch)])
+        mt_reuse_checks(sc, bad)
         if np.abs(d - 1).max() > 1e-9:
             if np.all(d == 0):      # the recorded defect: the diagonal is never filled
                 bad('mt-analyzer/self-coherence/zero-diagonal', 'MTCoherenceAnalyzer.coherence[i,i] = 0, not 1', 'mta')
@@ -684,6 +695,18 @@ def judge(sc, R, gain_rng=None):
                     bad(pre + '/analyzer/partial/%sne-inverse' % sig, 'CoherenceAnalyzer.coherence_partial differs from the inverse-matrix value by %.3g' % worst, 'apartial')
                 if above > 1 + tol:
                     bad(pre + '/analyzer/partial/%sabove-1' % sig, 'CoherenceAnalyzer.coherence_partial reaches %.4g > 1' % above, 'apartial')
+    # analyzer reuse / repeated calls / in-place overwrite / memory layouts
+    reuse_checks(sc, bad)
+    mk_ = (lambda: method_of(sc)) if sc['kind'] == 'welch' else (lambda: csd_method_of(sc))
+    A_ = tsa()
+    lb_, ub_ = R['band']
+    calls = [('coherency', lambda X_, m_: A_.coherency(X_, m_)), ('coherence', lambda X_, m_: A_.coherence(X_, m_)),
+             ('phase', lambda X_, m_: A_.coherency_phase_spectrum(X_, m_)),
+             ('cohbavg', lambda X_, m_: A_.coherence_bavg(X_, lb_, ub_, m_)),
+             ('delay', lambda X_, m_: A_.coherency_phase_delay(X_, lb_, ub_, m_))]
+    if nch >= 3 and sc['kind'] == 'welch':
+        calls.append(('partial', lambda X_, m_: A_.coherence_partial(X_[:-1], X_[-1], m_)))
+    identity_checks(pre, X, calls, mk_, bad)
     # gain metamorphic relation (function level): channel m times a
     if gain_rng is not None and not isinstance(cy, str):
         A = tsa()
@@ -708,6 +731,143 @@ def judge(sc, R, gain_rng=None):
             if np.abs(cy2 - sgn * cy).max() > 1e-7:
                 bad(pre + '/func/gain/coherency-sign', 'coherency did not transform by sign(a) under gain %g' % g, 'coherency')
     return fails
+
+
+# ------------------------------------------------------------------ analyzer reuse, repeated calls, in-place overwrite, layouts
+def partner(X):
+    """deterministic metamorphic partner of a data set: channels in reverse order, first one times -2.5"""
+    X2 = np.array(X[::-1], dtype=float, copy=True)
+    X2[0] *= -2.5
+    return X2
+
+
+def same(a, b, rtol=1e-9):
+    """tuples / arrays equal up to rtol of the largest magnitude (non-finite entries in the same places)"""
+    if isinstance(a, str) or isinstance(b, str):
+        return isinstance(a, str) and isinstance(b, str) and a == b
+    if isinstance(a, (tuple, list)):
+        return len(a) == len(b) and all(same(x, y, rtol) for x, y in zip(a, b))
+    a, b = np.asarray(a), np.asarray(b)
+    if a.shape != b.shape:
+        return False
+    fa, fb = np.isfinite(a), np.isfinite(b)
+    if not np.array_equal(fa, fb):
+        return False
+    if not fa.any():
+        return True
+    sc_ = max(np.abs(a[fa]).max(), np.abs(b[fa]).max(), 1e-300)
+    return bool(np.abs(a[fa] - b[fa]).max() <= rtol * sc_)
+
+
+def explicit_method(sc):
+    """a user method dict carrying explicit Fs / NFFT / n_overlap (welch) or Fs (other estimators)"""
+    if sc['kind'] == 'welch':
+        m = method_of(sc)
+        m.setdefault('n_overlap', sc['NFFT'] // 2)
+        return m
+    return csd_method_of(sc)
+
+
+def reuse_checks(sc, bad):
+    """ONE CoherenceAnalyzer re-targeted with set_input must give what the function-level API gives on the new
+    data: default method (Fs follows the input) and user method dict (explicit Fs), both read orders"""
+    A = tsa()
+    import nitime.timeseries as ts
+    from nitime.analysis import CoherenceAnalyzer
+    X = np.array(sc['data'], dtype=float)
+    X2 = partner(X)
+    Fs = sc['Fs']
+    pre = sc['kind'] if sc['kind'] == 'welch' else sc['method']
+    variants = [('explicit-method', lambda: explicit_method(sc), Fs)]
+    if sc['kind'] == 'welch':
+        variants += [('default-method', lambda: None, Fs), ('default-method', lambda: None, 2.0 * Fs)]
+    for vname, mk, Fs2 in variants:
+        m_exp = mk()
+        if m_exp is None:
+            m_exp = {'this_method': 'welch', 'Fs': Fs2}
+        want = run(lambda: (A.get_spectra(X2, dict(m_exp))[0], A.coherency(X2, dict(m_exp))[1], A.coherence(X2, dict(m_exp))[1]))
+        if isinstance(want, str):
+            continue
+        for order in ('values-first', 'frequencies-first'):
+            def go():
+                C = CoherenceAnalyzer(ts.TimeSeries(X, sampling_rate=Fs), method=mk())
+                first = ('coherency', 'coherence', 'spectrum', 'frequencies') if order == 'values-first' else ('frequencies', 'spectrum', 'coherence', 'coherency')
+                for a in first:
+                    getattr(C, a)
+                C.set_input(ts.TimeSeries(X2, sampling_rate=Fs2))
+                out = {}
+                for a in first:
+                    out[a] = np.array(getattr(C, a))
+                return out
+            got = run(go)
+            if isinstance(got, str):
+                bad('%s/analyzer-reuse/%s/%s/raises' % (pre, vname, order), 'a re-targeted CoherenceAnalyzer raised ' + got, 'an')
+                continue
+            for a, w in (('frequencies', want[0]), ('coherency', want[1]), ('coherence', want[2])):
+                if not same(got[a], w):
+                    bad('%s/analyzer-reuse/%s/%s/stale-%s' % (pre, vname, order, a),
+                        'CoherenceAnalyzer re-targeted with set_input: .%s differs from the function-level API on the new data' % a, 'an')
+
+
+def mt_reuse_checks(sc, bad):
+    """a re-targeted MTCoherenceAnalyzer (new data of another length) = a fresh one"""
+    import nitime.timeseries as ts
+    from nitime.analysis import MTCoherenceAnalyzer
+    X = np.array(sc['data'], dtype=float)
+    X2 = partner(X)[:, :X.shape[1] - 7]
+    for order in ('values-first', 'frequencies-first'):
+        names = ('coherence', 'frequencies') if order == 'values-first' else ('frequencies', 'coherence')
+
+        def go():
+            C = MTCoherenceAnalyzer(ts.TimeSeries(X, sampling_rate=sc['Fs']), adaptive=sc['adaptive'])
+            for a in names + ('weights', 'tapers'):
+                getattr(C, a)
+            C.set_input(ts.TimeSeries(X2, sampling_rate=2 * sc['Fs']))
+            return {a: np.array(getattr(C, a)) for a in names}
+        got = run(go)
+        fresh = run(lambda: (lambda C: {a: np.array(getattr(C, a)) for a in names})(
+            MTCoherenceAnalyzer(ts.TimeSeries(X2, sampling_rate=2 * sc['Fs']), adaptive=sc['adaptive'])))
+        if isinstance(fresh, str):
+            continue
+        if isinstance(got, str):
+            bad('mt-analyzer/reuse/%s/raises' % order, 'a re-targeted MTCoherenceAnalyzer raised ' + got, 'mta')
+            continue
+        for a in names:
+            if not same(got[a], fresh[a]):
+                bad('mt-analyzer/reuse/%s/stale-%s' % (order, a), 'MTCoherenceAnalyzer re-targeted with set_input: .%s differs from a fresh analyzer on the new data' % a, 'mta')
+
+
+def identity_checks(pre, X, calls, mk, bad, obs='coherency'):
+    """every function-level routine: called twice with the same argument objects (equal results, arguments
+    byte-identical); the same ndarray overwritten in place = a call on a fresh copy; Fortran-ordered and strided inputs"""
+    X = np.array(X, dtype=float)
+    X2 = partner(X)
+    for name, call in calls:
+        Xa = X.copy()
+        m = mk()
+        wsnap = None if m.get('window') is None or not hasattr(m.get('window'), 'tobytes') else m['window'].tobytes()
+        r1 = run(lambda: call(Xa, m))
+        r2 = run(lambda: call(Xa, m))
+        if isinstance(r1, str):
+            continue
+        if not same(r1, r2, 0.0):
+            bad('%s/func/%s/repeat-call-differs' % (pre, name), '%s called twice with the same argument objects gives different results' % name, obs)
+        if Xa.tobytes() != X.tobytes() or (wsnap is not None and m['window'].tobytes() != wsnap):
+            bad('%s/func/%s/argument-mutated' % (pre, name), '%s changed its ndarray argument' % name, obs)
+            Xa = X.copy()
+        Xa[...] = X2
+        r3 = run(lambda: call(Xa, m))
+        r4 = run(lambda: call(X2.copy(), mk()))
+        if not same(r3, r4, 1e-12):
+            bad('%s/func/%s/stale-after-inplace-overwrite' % (pre, name), '%s on an ndarray overwritten in place differs from a call on a fresh copy of the same data' % name, obs)
+        r5 = run(lambda: call(np.asfortranarray(X), mk()))
+        if not same(r5, r1, 1e-10):
+            bad('%s/func/%s/layout-fortran-differs' % (pre, name), '%s on a Fortran-ordered copy differs' % name, obs)
+        big = np.zeros((X.shape[0] * 2, X.shape[1] * 2))
+        big[::2, ::2] = X
+        r6 = run(lambda: call(big[::2, ::2], mk()))
+        if not same(r6, r1, 1e-10):
+            bad('%s/func/%s/layout-strided-view-differs' % (pre, name), '%s on a strided view differs' % name, obs)
 
 
 def oracle(rng, tier, seed, focus, cases=None):
